@@ -368,6 +368,7 @@ class Executor:
             sb = state.clone()
             k = fresh('k')
             self.havoc(node.body, sb, extra=[var])
+            self.havoc_mark(sb, state)
             sb.assume(z3.And(k >= 0, k < n))
             iv = lo + k * step
             sb.env[var] = iv
@@ -386,6 +387,7 @@ class Executor:
             # 3. after the loop
             sa = state.clone()
             self.havoc(node.body, sa, extra=[var])
+            self.havoc_mark(sa, state)
             sa.env[var] = lo + n * step
             for lbl, g in inv(View(sa, self), lo + n * step, n):
                 sa.assume(g)
@@ -398,6 +400,7 @@ class Executor:
             ctx.oblige(state, 'inv-init[%s]:%s' % (key, lbl), node.lineno, g)
         sb = state.clone()
         self.havoc(node.body, sb)
+        self.havoc_mark(sb, state)
         for lbl, g in inv(View(sb, self), None, None):
             sb.assume(g)
         sa = sb.clone()
@@ -527,6 +530,12 @@ class Executor:
                     state.assume(zi(obj.length) >= 0)
                 if grows:
                     obj._grown = True
+
+    def havoc_mark(self, s, pre):
+        """earlier iterations allocated an unknown number of ids: the watermark of an arbitrary iteration is unknown"""
+        m = fresh('lmark')
+        s.assume(m >= pre.mark)
+        s.mark = m
 
     def havoc_list(self, lst, state, grows):
         kind = lst.kind
